@@ -74,7 +74,7 @@ class NutsTypedBlock(NUTS):
     """a block kernel that IS-A NUTS (so that HybridGibbs takes its NUTS special case) with the stub kernel as transition"""
     _STATE_KEYS = Sampler._STATE_KEYS; _HISTORY_KEYS = Sampler._HISTORY_KEYS
     def __init__(self, c, name, initial_point):
-        self.c = c; self.bname = name; self.events = []
+        self.c = c; self.bname = name; self.events = []; self._max_depth = 3
         Sampler.__init__(self, None, initial_point=initial_point)
     def _initialize(self): pass
     def validate_target(self): pass
